@@ -540,6 +540,7 @@ DB_TABLES = [
      'carol': ('c', [], ['x']),
      'ALICE': ('other', ['X'], ['X']),
      'ali': ('s3cret', ['z'], ['z']),
+     'sensor': ('sens0r', ['x', 'z'], ['y']),
      '': ('empty', ['x'], ['x', '']),
      'dave': ('dé', None, None),
      'ghost': None},
@@ -657,6 +658,21 @@ class Script:
                 if not subs:
                     return
                 k = 0.1
+        if adversarial and rng.random() < 0.12:
+            # cross-use of the two lists: subscribe where only publishing is allowed, publish where only subscribing is -
+            # right after having used the channel the permitted way
+            only_pub = [c for c in pubs if c not in subs]
+            only_sub = [c for c in subs if c not in pubs]
+            if only_pub and (not only_sub or rng.random() < 0.5):
+                c = rng.choice(only_pub)
+                self.frames.append(('pub', P.msgpublish(ident, c, gen_payload(rng))))
+                self.frames.append(('sub', P.msgsubscribe(ident, c)))
+                return
+            if only_sub:
+                c = rng.choice(only_sub)
+                self.frames.append(('sub', P.msgsubscribe(ident, c)))
+                self.frames.append(('pub', P.msgpublish(ident, c, gen_payload(rng))))
+                return
         if k < 0.30:
             c = rng.choice(subs) if subs and (not adversarial or rng.random() < 0.85) else rng.choice(CHANS)
             self.frames.append(('sub', P.msgsubscribe(self.spoof(ident, 0.05 if adversarial else 0), c)))
@@ -1069,6 +1085,20 @@ def gen_same_ident_inflight(rng):
         events.append(['D', q, jbytes(P.msgpublish(who, c, gen_payload(rng)))])
         if rng.random() < 0.3:
             events.append(gen_lookup(rng, table, q, who))
+    # ... and some authenticate AGAIN (the same ident, or another one) with requests pipelined behind that second OP_AUTH;
+    # the verdict arrives later and they go on
+    rowj = [jbytes(row[0].encode()), [jbytes(c.encode()) for c in row[1]], [jbytes(c.encode()) for c in row[2]]]
+    for q in range(n):
+        if rng.random() < 0.6:
+            c = rng.choice(row[1])
+            fr = [auth_frame(who, digest(nonces[q], row[0])), P.msgpublish(who, c, gen_payload(rng))]
+            if rng.random() < 0.5:
+                fr.append(P.msgsubscribe(who, rng.choice(row[2])))
+            events.append(['D', q, jbytes(b''.join(fr))])
+            if rng.random() < 0.4:
+                events.append(['D', L, jbytes(P.msgpublish(lst, rng.choice(table[lst][1]), gen_payload(rng)))])
+            events.append(['R', q, 'row', rowj])
+            events.append(['D', q, jbytes(P.msgpublish(who, c, gen_payload(rng)))])
     case = dict(name=jbytes(name.encode()), db=jdb(table), async_=True, events=events)
 
     class R:
